@@ -28,6 +28,8 @@
 //	    | (struct (xNAME OPT T)*)   OPT ::= t|f : the member's key type is Optional[String[NAME]] / String[NAME]
 //	    | (var T*)                  Variant (`(var)` = default Variant; a one-member Variant object stays `(var T)`)
 //	    | (opt T) | (nu T) | (type T) | (sens T) | (iter T)     Optional NotUndef Type Sensitive Iterable; default = [any]
+//	    | (rt xRUNTIME xNAME none) | (rt xRUNTIME xNAME (xPATTERN))     Runtime[runtime, name] / Runtime[runtime, name, Regexp[/pattern/]] without a Go
+//	                                type; (rt x x none) is the default Runtime.  No value term denotes a runtime value.
 //	    | (itr T)                   Iterator[T]; default = (itr any).  No value term denotes an iterator.
 //	    | (obj)                     the default Object type
 //	    | (obj N+)                  user object type named by its ancestor path, root first: (obj 1) = Lat::O1,
